@@ -99,9 +99,10 @@ def run(F, R):
                         qblocks_ = [qb_ for qb_, qt_ in par.bv.calls() if qt_.get("callee_id") == qv.body.get("parent")]
                         newer_ = []
                         for d_ in dblocks_:
-                            after_d = par.bv.reach_from(list(par.bv.succ[d_]), avoid=[d_])
+                            # any (re)binding of the handed-on value refreshes it: paths are cut at every binding block
+                            after_d = par.bv.reach_from(list(par.bv.succ[d_]), avoid=dblocks_)
                             for qb_ in qblocks_:
-                                if qb_ in after_d and bi in par.bv.reach_from(list(par.bv.succ[qb_]), avoid=[d_]):
+                                if qb_ in after_d and bi in par.bv.reach_from(list(par.bv.succ[qb_]), avoid=dblocks_):
                                     newer_.append(qb_)
                         if dblocks_:
                             R.check("C12-R1", "armed-with-latest-timing:" + _k(par) + ":" + str(bi), not newer_, "no newer policy answer exists when the timers are armed",
